@@ -525,7 +525,10 @@ func (c *ConditionCalledByContract) Type() WitnessConditionType {
 // Match implements the WitnessCondition interface checking whether this condition
 // matches given context.
 func (c *ConditionCalledByContract) Match(ctx MatchContext) (bool, error) {
-	return util.Uint160(*c).Equals(ctx.GetCallingScriptHash()), nil
+	h := ctx.GetCallingScriptHash()
+	// Entry script has no calling contract (zero hash is returned for it), so
+	// nothing can match in this case, even zero hash condition.
+	return !h.Equals(util.Uint160{}) && util.Uint160(*c).Equals(h), nil
 }
 
 // EncodeBinary implements the WitnessCondition interface allowing to serialize condition.
